@@ -1,4 +1,3 @@
 package main
 
-func genConsts(coreDir string)  {}
-func genSites()                 {}
+func genConsts(coreDir string) {}
